@@ -1453,13 +1453,39 @@ pub fn splice_unknown_smile(t: &mut Tape, ty: &Ty, doc: &mut serde_smile::value:
             _ => return false,
         };
     }
-    let extra = match t.draw(6) {
+    // every kind of value Smile has, including the integers wider than 64 bits and the decimals
+    // that only Smile writers of other languages produce
+    let big = |t: &mut Tape, n: usize| -> serde_smile::value::BigInteger {
+        let mut b: Vec<u8> = (0..n).map(|_| t.draw(256) as u8).collect();
+        if b[0] == 0 || b[0] == 0xff {
+            b[0] = if t.chance(1, 2) { 0x01 } else { 0x80 };
+        }
+        serde_smile::value::BigInteger::from_be_bytes(b)
+    };
+    let extra = match t.draw(12) {
         0 => S::Null,
         1 => S::Integer(1),
         2 => S::String("NaN".into()),
         3 => S::Array(vec![S::Integer(1), S::Null]),
         4 => S::Double(1.5),
-        _ => S::Binary(vec![1, 2, 3]),
+        5 => S::Binary(vec![1, 2, 3]),
+        6 => S::Long(*t.pick(&[i64::MIN, i64::MAX, 1 << 40])),
+        7 => {
+            // 65..128 bits (9..16 bytes), or wider
+            let n = *t.pick(&[9usize, 12, 16, 17, 40]);
+            S::BigInteger(big(t, n))
+        }
+        8 => {
+            let n = *t.pick(&[1usize, 8, 9, 16, 17]);
+            let scale = *t.pick(&[0i32, 2, -3, 400]);
+            S::BigDecimal(serde_smile::value::BigDecimal::new(big(t, n), scale))
+        }
+        9 => S::Float(*t.pick(&[1.5f32, f32::NAN, f32::INFINITY, -0.0])),
+        10 => {
+            let n = *t.pick(&[9usize, 16, 17]);
+            S::Array(vec![S::Object([("k".to_string(), S::BigInteger(big(t, n)))].into_iter().collect())])
+        }
+        _ => S::Boolean(true),
     };
     if let S::Object(m) = cur {
         // position among the members: first / middle / last
